@@ -195,13 +195,24 @@ type reqSpec struct {
 	Flags  flags    `json:"flags"`
 	Token  bool     `json:"token_configured"`
 	Seq    string   `json:"seq,omitempty"`
+	// things the gate must not care about
+	Extra  []string `json:"extra_headers,omitempty"` // full header lines
+	Remote string   `json:"remote_addr,omitempty"`
+	Host   string   `json:"host,omitempty"`
 }
 
 func parse(rs reqSpec) (*http.Request, error) {
 	var sb strings.Builder
-	fmt.Fprintf(&sb, "%s %s HTTP/1.1\r\nHost: agent.test\r\n", rs.Method, rs.Target)
+	host := rs.Host
+	if host == "" {
+		host = "agent.test"
+	}
+	fmt.Fprintf(&sb, "%s %s HTTP/1.1\r\nHost: %s\r\n", rs.Method, rs.Target, host)
 	for _, a := range rs.Auth {
 		fmt.Fprintf(&sb, "Authorization: %s\r\n", a)
+	}
+	for _, x := range rs.Extra {
+		sb.WriteString(x + "\r\n")
 	}
 	sb.WriteString("Content-Length: 0\r\n\r\n")
 	req, err := http.ReadRequest(bufio.NewReader(strings.NewReader(sb.String())))
@@ -212,6 +223,9 @@ func parse(rs reqSpec) (*http.Request, error) {
 	cancel() // handlers that would wait (pprof profile, remote calls) return at once
 	req = req.WithContext(ctx)
 	req.RemoteAddr = "192.0.2.1:1234"
+	if rs.Remote != "" {
+		req.RemoteAddr = rs.Remote
+	}
 	return req, nil
 }
 
@@ -344,7 +358,7 @@ func main() {
 		}
 
 		nontrivial := !(exempt[req.URL.Path] && req.Method == "GET")
-		key := fmt.Sprintf("%v|%v|%s|%s|%v", rs.Flags, rs.Token, rs.Method, rs.Target, rs.Auth)
+		key := fmt.Sprintf("%v|%v|%s|%s|%v|%v|%s|%s", rs.Flags, rs.Token, rs.Method, rs.Target, rs.Auth, rs.Extra, rs.Remote, rs.Host)
 		c.Case(key, nontrivial, rs)
 		c.Count(fmt.Sprintf("class:%d", class))
 		c.Count(fmt.Sprintf("status:%d", status))
@@ -490,6 +504,21 @@ func main() {
 		allFlags = append(allFlags, flags{i&1 != 0, i&2 != 0, i&4 != 0})
 	}
 
+	// headers, peers and hosts that must not open the gate
+	ambientHeaders := [][]string{nil, nil, nil, {"Upgrade: websocket", "Connection: Upgrade", "Sec-WebSocket-Version: 13", "Sec-WebSocket-Key: dGhlIHNhbXBsZSBub25jZQ=="},
+		{"Cookie: token=" + rightToken + "; Authorization=Bearer " + rightToken}, {"X-Auth-Token: " + rightToken, "X-Api-Key: " + rightToken},
+		{"Proxy-Authorization: Bearer " + rightToken}, {"X-Forwarded-For: 127.0.0.1", "X-Real-IP: 127.0.0.1", "Forwarded: for=127.0.0.1"},
+		{"Origin: http://localhost", "Access-Control-Request-Method: POST"}, {"X-HTTP-Method-Override: GET", "X-Original-URL: /health", "X-Rewrite-URL: /health"},
+		{"Referer: http://agent.test/?token=" + rightToken}, {"Token: " + rightToken, "Bearer: " + rightToken}}
+	ambientRemotes := []string{"", "", "127.0.0.1:40000", "[::1]:40000", "@", "10.0.0.7:1"}
+	ambientHosts := []string{"", "", "localhost", "127.0.0.1:8080", "health", "agent.test:8080"}
+	ambient := func(rs reqSpec, i int) reqSpec {
+		rs.Extra = ambientHeaders[i%len(ambientHeaders)]
+		rs.Remote = ambientRemotes[(i/3)%len(ambientRemotes)]
+		rs.Host = ambientHosts[(i/5)%len(ambientHosts)]
+		return rs
+	}
+
 	withQuery := func(target, q string) string {
 		if q == "" {
 			return target
@@ -515,6 +544,14 @@ func main() {
 				}
 				run(reqSpec{Method: "POST", Target: b, Auth: []string{"Bearer " + rightToken}, Flags: f, Token: true})
 				run(reqSpec{Method: "GET", Target: b, Flags: f, Token: false})
+			}
+		}
+		// 1b. nothing but the token opens the gate: every ambient header set, loopback peers and local host names, no token
+		for i := 0; i < len(ambientHeaders)*6; i++ {
+			for _, t := range []string{"/agents", "/routes/advertise", "/api/topology", "/sleep"} {
+				for _, m := range []string{"GET", "POST", "OPTIONS"} {
+					run(ambient(reqSpec{Method: m, Target: t, Flags: flags{true, true, true}, Token: true}, i))
+				}
 			}
 		}
 		// 2. the token cache over a history on one server: right, wrong, right again, near misses
@@ -556,7 +593,7 @@ func main() {
 							continue
 						}
 						for i, s := range spellings {
-							run(reqSpec{Method: "GET", Target: withQuery(s, p.q), Auth: p.a, Flags: f, Token: tok})
+							run(ambient(reqSpec{Method: "GET", Target: withQuery(s, p.q), Auth: p.a, Flags: f, Token: tok}, i))
 							if i%3 == 0 {
 								run(reqSpec{Method: "CONNECT", Target: withQuery(s, p.q), Auth: p.a, Flags: f, Token: tok})
 							}
@@ -581,7 +618,7 @@ func main() {
 				}
 				rs.Target = withQuery(t, tokenQueries[c.Rand.Pick(0, 0, 0, 1, 2, 3, 4, 5, 6, 7, 8, 9, 10)])
 				rs.Auth = authHeaders[c.Rand.Pick(0, 0, 1, 1, 2, 3, 4, 5, 6, 7, 8, 9, 10, 11, 12, 13, 14, 15, 16)]
-				run(rs)
+				run(ambient(rs, c.Rand.Intn(1000)))
 			}
 		}
 	}
